@@ -27,6 +27,7 @@ type TAct struct {
 	HandlerMs int               `json:"handler_ms,omitempty"`
 	SelfClose int               `json:"self_close,omitempty"` // monitor: an API call (CbAct, default Close()) from inside its n-th callback
 	CbAct     string            `json:"cb_act,omitempty"`
+	Stateful  bool              `json:"stateful,omitempty"` // subf/clonef: the node's filter is one stateful user object, mutated and re-submitted by pointer
 	NoInit    bool              `json:"no_init,omitempty"` // monitor: the handler has no OnInitialize
 	Block     bool              `json:"block,omitempty"`
 	Async     bool              `json:"async,omitempty"`
@@ -295,6 +296,7 @@ func (t *treeRun) act(a TAct) {
 			return
 		}
 		h.NextMonitorNoInit = a.NoInit && a.Kind == "monitor"
+		h.NextStateful = a.Stateful && (a.Kind == "subf" || a.Kind == "clonef")
 		n, err := h.MakeNode(parent, a.Kind, a.Filter, a.Reader)
 		if err != nil {
 			// only acceptable when the publisher is (being) shut down
@@ -772,6 +774,20 @@ func (t *treeRun) monitorChecks() {
 		}
 		if len(n.MonLog) == 0 {
 			continue
+		}
+		// completeness: a monitor that existed before anything was written gets a
+		// callback for every event an older healthy subscriber of the same stream
+		// received (one per event, in order) - also for events that "only" repeat
+		// what its OnInitialize list already showed
+		if n.BeforeTraffic && !h.Overflowed() && !t.closedByScenario(n) && !n.Lost() && !h.AnyFilteredAncestorOrSelf(n) {
+			for _, x := range h.Nodes {
+				if x.Sub != nil && x.Mon == nil && x.Reader == "eager" && x.Parent == nil && !x.Filtered() && !x.Lost() && !x.WeClosed && x.ID < n.ID && x.BeforeTraffic {
+					if ws, cs := witnessSigs(x), callSigsTree(n.MonLog[1:]); !isSubsequence(ws, cs) {
+						detsim.Fail("monitor-missed-event", "%s: not every event has its callback\n  events (as received by %s): %v\n  callbacks: %v", n.Name(), x.Name(), ws, cs)
+					}
+					break
+				}
+			}
 		}
 		// replay: init list + callbacks must reproduce the publisher's cache
 		// (when nothing overflowed and the monitor is still attached)
